@@ -18,6 +18,7 @@
     load_after_eviction_parses loader_cache_is_wellformed_lru
     racing_write_is_linearizable racing_history_is_plain_history reload_current_racing_partial
     code_takes_mtime_of_opened_file stat_after_open_serves_stale
+    load_outcome_is_first_on_path reload_current_full_iff_noshadow
 -/
 import Genshi.Lemmas.Lru
 import Genshi.Lemmas.LruAbs
@@ -228,6 +229,28 @@ theorem load_parses_first_on_path (cfg : Cfg) (fs : FS) (s s' : LState) (r : Req
   obtain ⟨key, entries, isabs, f, h1, h2, h3, h4, h5⟩ := load_parses_first h hparsed hf
   exact ⟨key, entries, isabs, f, h1, h2, h3, h4, by rw [h5], by rw [h5]⟩
 
+/-- The same with the faults of load functions in the specification (`firstOnPathF`: a load
+    function raising IOError is passed over, one raising anything else ends the walk), and as a
+    complete case analysis: a load that is not answered from the cache — the key is not cached
+    (never loaded, evicted) or, with automatic reloading, its file changed — ends exactly as the
+    walk over the search path of that call says: no search path configured; `TemplateNotFound`;
+    the load function's exception; for the file found first its syntax error, the callback's
+    exception, or the template parsed from its current content with a fresh identity. -/
+theorem load_outcome_is_first_on_path (cfg : Cfg) (fs : FS) (s s' : LState) (r : Req) (res : Res) (key : Key)
+    (hk : resolve cfg.path.isEmpty r = some key)
+    (hno : alookup key s.cache.items = none ∨ (cfg.autoReload = true ∧ stillCurrent fs s key = false))
+    (h : load cfg fs s r = some (s', res)) :
+    (searchPath cfg r key = none ∧ res = .err .noSearchPath) ∨
+    ∃ entries isabs, searchPath cfg r key = some (entries, isabs) ∧
+      match firstOnPathF fs r.fault key entries with
+      | .nothing => res = .err .notFound
+      | .raised => res = .err .loadFunc
+      | .file loc f =>
+        (f.bad = true ∧ res = .err .syntaxError) ∨
+        (f.bad = false ∧ cfg.hasCallback = true ∧ r.cbRaise = true ∧ res = .err .callback) ∨
+        (f.bad = false ∧ res = .ok ⟨s.nextObj, loc, f.content, r.cls, r.enc, isabs⟩) :=
+  load_by_firstF hk hno h
+
 /-- A returned template is either the cached object (nothing parsed, no callback) or a
     template parsed in this call (a fresh object, stored under the key). -/
 theorem served_or_parsed (cfg : Cfg) (fs : FS) (s s' : LState) (r : Req) (t : Tmpl)
@@ -297,6 +320,30 @@ theorem reload_current_noshadow_partial (cfg : Cfg) (har : cfg.autoReload = true
       firstOnPath (hrun cfg (World.init cfg.cap) ops).1.fs key entries = some (t.loc, f) ∧
       f.content = t.content :=
   load_current_first (inv_hrun (inv_init cfg.cap) ops) har hf hns h
+
+/-- `NoShadow` is not stronger than necessary: for a successful load with automatic reloading
+    (no load-function fault in that call) the full statement — the returned template has the
+    current content of the file found first on the search path now — holds **exactly** when
+    `NoShadow` does.  The class excluded from `reload_current_noshadow_partial` is the class of
+    finding C15-shadow and nothing else. -/
+theorem reload_current_full_iff_noshadow (cfg : Cfg) (har : cfg.autoReload = true) (ops : List HOp)
+    (r : Req) (hf : r.fault = .none) (ls' : LState) (t : Tmpl)
+    (h : load cfg (hrun cfg (World.init cfg.cap) ops).1.fs (hrun cfg (World.init cfg.cap) ops).1.ls r
+          = some (ls', .ok t)) :
+    (∃ key entries isabs f, resolve cfg.path.isEmpty r = some key ∧
+      searchPath cfg r key = some (entries, isabs) ∧
+      firstOnPath (hrun cfg (World.init cfg.cap) ops).1.fs key entries = some (t.loc, f) ∧
+      f.content = t.content) ↔ NoShadow cfg (hrun cfg (World.init cfg.cap) ops).1 r := by
+  constructor
+  · rintro ⟨key, entries, isabs, f, hk, hsp, hfp, _⟩ key' t0 hk' hl hcur
+    rw [hk] at hk'; cases hk'
+    have hs := load_served hk hl (Or.inr hcur)
+    rw [hs] at h
+    simp only [Option.some.injEq, Prod.mk.injEq, Res.ok.injEq] at h
+    obtain ⟨_, rfl⟩ := h
+    exact ⟨entries, isabs, f, hsp, hfp⟩
+  · intro hns
+    exact load_current_first (inv_hrun (inv_init cfg.cap) ops) har hf hns h
 
 def shadowCfg : Cfg := { path := [.dir 0 false, .dir 1 false], autoReload := true, cap := 2 }
 def shadowOps : List HOp :=
@@ -478,6 +525,14 @@ end
 
 section
 open Genshi.Loader
+-- the specification with faults: a load function raising IOError is passed over, another
+-- exception ends the walk, otherwise the first file decides
+example : firstOnPathF (fsSet (fsSet (fun _ => none) ⟨1, false, 0⟩ (some ⟨7, false, 1⟩)) ⟨2, false, 0⟩ (some ⟨8, false, 2⟩))
+    .io ⟨none, false, 0⟩ [.dir 0 false, .fn 1 true, .dir 2 false] = .file ⟨2, false, 0⟩ ⟨8, false, 2⟩ := by decide
+example : firstOnPathF (fsSet (fun _ => none) ⟨1, false, 0⟩ (some ⟨7, false, 1⟩))
+    .other ⟨none, false, 0⟩ [.dir 0 false, .fn 1 true, .dir 2 false] = .raised := by decide
+example : firstOnPathF (fsSet (fun _ => none) ⟨1, false, 0⟩ (some ⟨7, false, 1⟩))
+    .none ⟨none, false, 0⟩ [.dir 0 false, .fn 1 true, .dir 2 false] = .file ⟨1, false, 0⟩ ⟨7, false, 1⟩ := by decide
 -- racing replacements that land: after `open` (the old content is returned, the next load
 -- reloads), before `open` (the new content is returned)
 example : (hrunR true ⟨[.dir 0 false], true, 2, true⟩ (World.init 2)
